@@ -3,11 +3,13 @@
 # then try the checks on /repo with the patch applied (and undo it)
 # usage: confirm_seed.sh <ID> [props to check...]
 id=$1; shift; props=${@:-$id}; exec > >(tee /tmp/seed_out/$id/confirm.log) 2>&1
-wt=/tmp/wt_confirm; out=/tmp/seed_out/$id
+wt=/tmp/wt_confirm
+[ -d $wt ] || git -C /repo worktree add --detach $wt HEAD > /dev/null 2>&1   # scratch worktree, created on demand (remove it afterwards: git -C /repo worktree remove --force $wt); out=/tmp/seed_out/$id
 git -C $wt checkout -q -- . ; git -C $wt clean -fdq -e _build; git -C $wt checkout -q --detach $(git -C /repo rev-parse HEAD)
 echo "== patch"; head -50 $out/patch.diff
 git -C $wt apply $out/patch.diff || { echo "PATCH DOES NOT APPLY to a clean tree"; exit 1; }
 git -C $wt status --short | grep -v _build
+[ -d $wt/_build ] || (cd $wt && cmake -S . -B _build -G Ninja -DCMAKE_BUILD_TYPE=RelWithDebInfo -DOCCA_ENABLE_TESTS=ON -DOCCA_ENABLE_EXAMPLES=OFF -DOCCA_ENABLE_FORTRAN=OFF > /dev/null 2>&1)
 echo "== build + tests in isolated worktree WITH the change"
 (cd $wt && cmake --build _build -j16 2>&1 | grep -E "error|FAILED" | head; rm -rf _build/occa/cache; ctest --test-dir _build -j8 --timeout 900 2>&1 | tail -3)
 demo=""
